@@ -1091,7 +1091,9 @@ impl<'info> Evaluator {
         if let Some((cond, iftrue, iffalse)) = match_i_op(maybe_condition.clone()) {
             let x_head = Rc::new(BodyForm::Value(SExp::Atom(cond.loc(), vec![b'x'])));
             let apply_head = Rc::new(BodyForm::Value(SExp::Atom(iftrue.loc(), vec![2])));
-            let where_from = cond.loc().to_string();
+            // Two different conditionals can test the same thing (the same
+            // parameter, say), so identify this one by its branches as well.
+            let where_from = format!("{} {} {}", cond.loc(), iftrue.loc(), iffalse.loc());
             let where_from_vec = where_from.as_bytes().to_vec();
 
             if let Some(present) = visited.get_function(&where_from_vec) {
